@@ -540,7 +540,11 @@ def automatic(ctx):
     calls = [n for n in own_nodes(ppl.node) if isinstance(n, ast.Call) and any(t[0] == "pkg" and t[1] is fn for t in ctx.res.call_targets(n, ppl))]
     rets = [n for n in own_nodes(ppl.node) if isinstance(n, ast.Return)]
     ok = bool(calls) and all(isinstance(r.value, ast.Call) and r.value in calls for r in rets)
-    ctx.decide("C12.2", ppl, ok, "path_piece_length returns get_piece_length(...) unchanged", "path_piece_length does not return the automatic choice unchanged", "path_piece_length")
+    if not ok and not calls and any(isinstance(x, ast.Call) and C.targets_of(ctx, ppl, x) for r in rets if r.value is not None for x in ast.walk(r.value)):
+        # the value comes out of another package function (a record that carries the choice, say): where it is computed was not followed
+        ctx.undecided("C12.2", ppl, "path_piece_length returns `%s`; whether that is the automatic choice for the payload size was not followed" % norm(rets[0].value)[:60], "path_piece_length")
+    else:
+        ctx.decide("C12.2", ppl, ok, "path_piece_length returns get_piece_length(...) unchanged", "path_piece_length does not return the automatic choice unchanged", "path_piece_length")
 
 
 def _exponent_by_search(ctx, fn, e, size, fold_c):
